@@ -114,6 +114,12 @@ class Kern(Family):
                         vals = [rng.choice(B64), rng.choice(B64), rng.choice(B64), perm, ty]
                         out.append((case("vdpa", "iotlb_roundtrip" if (ty + perm) % 2 else "send_iotlb", vals, b"", acked), "iotlb-combos"))
                         out.append((case("vdpa", "iotlb_roundtrip", vals, b"", acked), "iotlb-combos"))
+            # a negotiation the kernel refuses acknowledges nothing: the layout of the next message is that of what was
+            # acknowledged before
+            for acked in (0, 2, 3, 1):
+                for feat in (0, 1, 2, 3, 2**64 - 1):
+                    vals = [feat, rng.choice(B64), rng.choice(B64), rng.choice(B64), rng.below(4), 1 + rng.below(3)]
+                    out.append((case("vdpa", "refused_features_iotlb", vals, b"", acked), "refused-negotiation"))
             # images as the kernel would hand them over, through the parsers: right and wrong outer type, empty inner type,
             # wrong length, union padding that is not zero
             for v2 in (0, 1):
